@@ -254,12 +254,12 @@ def gen_case(rng, k, layout):
     roots = {}                      # no layout: id -> chosen object_root
     free_roots = []                 # no layout: roots of purged objects (to be reused)
 
-    def pick_root(tid):
+    def pick_root(tid, reuse=0.5):
         if layout != "none":
             return None
         r = rng.random()
         h = hashlib.md5(tid.encode("utf-8")).hexdigest()
-        if free_roots and r < 0.5:
+        if free_roots and r < reuse:
             return free_roots.pop(rng.randrange(len(free_roots)))
         if r < 0.6:
             return "objs/" + h[:8]
@@ -293,12 +293,20 @@ def gen_case(rng, k, layout):
         pur = [i for i, s in state.items() if s == "purged"]
         stg = [i for i, s in state.items() if s == "staged"]
         r = rng.random()
+        fresh = [to_layout_id(layout, x) for x in usable if to_layout_id(layout, x) not in state]
         if r < 0.40 and com:
             tid = rng.choice(com)
             ops.append({"op": "purge", "id": tid})
             state[tid] = "purged"
             if tid in roots:
                 free_roots.append(roots.pop(tid))
+        elif r < 0.52 and pur and fresh:
+            # an object that was never there takes the place (without layout: the very root) of a purged one
+            tid = rng.choice(fresh)
+            ops.append({"op": "create", "raw": tid, "id": tid, "root": pick_root(tid, reuse=0.9), "pretty": rng.random() < 0.4})
+            state[tid] = "committed"
+            if ops[-1].get("root"):
+                roots[tid] = ops[-1]["root"]
         elif r < 0.65 and pur:
             tid = rng.choice(pur)
             ops.append({"op": "create", "raw": tid, "id": tid, "root": pick_root(tid), "pretty": rng.random() < 0.4})
@@ -330,10 +338,37 @@ def gen_case(rng, k, layout):
     return {"k": k, "cfg": cfg, "ops": ops, "probes": probes, "globs": globs}
 
 
+SCRIPT_IDS = [("A1", "B1"), ("a*b", "a?b"), ("has space", " has space"), ("ob\u00fc", "OB\u00dc"), ("extensions", "Extensions"),
+              ("urn/x/y", "urn/x")]
+SCRIPT_ROOTS = ["reuse/x", "r1", "a/extensions/o1", "b/extensions", "deep/1/2/3/x", "Objs/X"]
+
+
+def scripted_case(rng, k, n):
+    """no layout: A is committed at root R and looked up, A is purged, B (never there before) is committed at R;
+    the handle must then report A as not found and B at R - with one handle for everything (odd n) or a fresh
+    handle per call (even n).  R runs through roots below / named `extensions`."""
+    a, b_ = SCRIPT_IDS[n % len(SCRIPT_IDS)]
+    root = SCRIPT_ROOTS[(n // 2) % len(SCRIPT_ROOTS)]
+    cfg = {"layout": "none", "repo_spec": "1.1", "obj_spec": "1.1", "alg": "sha256", "cdir": "content", "pad": 0,
+           "ext_staging": n % 3 == 0, "fresh_handle": n % 2 == 0}
+    ops = [{"op": "create", "raw": "keep", "id": "keep", "root": "objs/keep", "pretty": False},
+           {"op": "create", "raw": a, "id": a, "root": root, "pretty": n % 4 < 2},
+           {"op": "update", "id": a, "pretty": False},
+           {"op": "purge", "id": a},
+           {"op": "create", "raw": b_, "id": b_, "root": root, "pretty": False},
+           {"op": "purge", "id": b_},
+           {"op": "create", "raw": a, "id": a, "root": "again/" + root, "pretty": True}]
+    probes = [a + "x", b_.upper(), "nope"]
+    globs = [glob_tokens(rng, [a, b_, "keep"]) for _ in range(4)]
+    return {"k": k, "cfg": cfg, "ops": ops, "probes": probes, "globs": globs, "scripted": True}
+
+
 def gen_cases(ctx):
     keys = ["none", "0003", "0004", "0002", "none", "0006", "0007", "0003b", "0004b", "none"]
     n = 200 if ctx.quick() else 4000
-    return [gen_case(ctx.rng, k, keys[k % len(keys)]) for k in range(n)]
+    cases = [gen_case(ctx.rng, k, keys[k % len(keys)]) for k in range(n)]
+    m = 12 if ctx.quick() else 72
+    return cases + [scripted_case(ctx.rng, n + j, j) for j in range(m)]
 
 
 # --------------------------------------------------------------------------- running a case
@@ -900,7 +935,7 @@ def execute(ctx, cases, vh, with_crafted=True):
     layout_paths(vh, cases)
     stats = {"queries": 0, "list_all": 0, "list_glob": 0, "list_staged": 0, "get_committed": 0, "get_absent": 0,
              "get_live_uncompared": 0, "purge": 0, "purge_uncompared": 0, "validate_repo": 0, "checkpoints": 0, "create_failed": 0,
-             "cases": len(cases)}
+             "cases": len(cases), "scripted_cases": len([c for c in cases if c.get("scripted")])}
     import time
     t0 = time.time()
     with concurrent.futures.ThreadPoolExecutor(max_workers=max(4, common.NPROC)) as ex:
@@ -965,7 +1000,8 @@ RULE = ("id-set cases: 3-8 ids drawn from a hostile pool (glob metacharacters, q
         "white space at the ends (ids are kept as given), case twins, reserved names such as extensions, long, unicode) adapted to the layout; "
         "every layout key of hist.LAYOUTS and none; create / stage-only / update / purge / re-create (roots reused, roots "
         "below a directory named extensions and roots named extensions when there is no layout); one handle or a fresh handle per call; "
-        "every purge is compared with the model's purge_object (result, objects left); at the end validate_repo must visit exactly "
+        "scripted cases without layout (A committed and looked up, purged, a new id B committed at the same root, "
+        "purged, A committed elsewhere; one handle or fresh handles); every purge is compared with the model's purge_object (result, objects left); at the end validate_repo must visit exactly "
         "the committed objects; after every "
         "commit and purge: list_objects(None), 4 generated globs, list_staged, get_object of committed, staged-only, purged and "
         "never-committed ids; distinct = distinct (layout, handle mode, query, reference state)")
